@@ -82,6 +82,17 @@ CLAIMS.update({
     text="Proved for all classes: classes with the same states, event set and per-(state,event) ordered candidates behave identically on every operation history, for all user code and options (C15_behaviour, via tryCands_filter). Proved for all programs and contexts that the to/from_/multi/itself/event=/decorator/States styles elaborate identically (C15_rewrite_anywhere), and that from_.any() equals the explicit from_ over the non-final states under the hypotheses that exclude finding D16 (C15_any_partial); the four D16 shapes have machine-checked negation witnesses. Shared-list, Event(T), placeholder and inheritance equivalences are proved on instances only and exercised by the correspondence (380 machines x ~4.6 source renderings per quick run against the real library and the model).",
     design="7 C15"),
 })
+CLAIMS.update({
+  "C06": dict(
+    technique="Lean 4 invariant proofs over an interleaving transition system + CHESS-style bounded schedule enumeration of the real engine with step-sequence refinement check against the model",
+    text="Theorems in SMV/Props/C06.lean: for every reachable state of the put/try-acquire/drain/release protocol with any number of senders, nested sends and any interleaving, at most one sender is in the critical section (callback blocks never overlap), processed ++ in-flight ++ queue = history (exactly once, put order, per-sender order), and when all senders have returned the queue is empty — for the repaired thread protocol and the asyncio-atomic variant; a machine-checked witness shows the un-repaired thread protocol strands an event (D15). The model is tied to the real sync/async engines by controlled schedulers (sys.settrace baton per source line; one-handle-per-iteration event loop) that enumerate schedules under a preemption bound, check an independent Spec on each, and validate each realised step sequence and outcome against the model. PARTIAL for the runtime: source-line granularity, atomic Lock/deque operations assumed, failure path excluded.",
+    design="7 C06",
+    note="Trusted: Lean kernel (axioms propext/Classical.choice/Quot.sound); the protocol model's correspondence to engines/sync.py and async_.py rests on the schedulers' line-to-step mapping (falls back to Spec + outcome-set comparison if the anchors move); bytecode-level preemption inside one source line, GIL hand-off timing and real event-loop timing are not explored; Lock.acquire(blocking=False)/release and deque.append/popleft are assumed atomic."),
+  "C12": dict(
+    technique="Lean 4 proof (resolution of names against an ordered provider list into keyed executors: idempotence, no duplicate keys, completeness) + model/implementation correspondence with late and repeated attachment + isolation test with a second instance",
+    text="Theorems about the resolution model Prov (names -> executor items keyed by (name, provider)): C12_attach_idempotent (attaching the same listeners again, any number of times, leaves every executor unchanged), C12_no_duplicate_keys, C12_all_providers_called (every provider offering a name is in the executor), C12_only_offered, C12_parity (resolution uses providers only through id and attributes: machine, model and listeners are treated alike). Phases/argument injection for provider callbacks are C02/C07 on the shared engine. Correspondence: callbacks (conventions, names, guards, validators) distributed over machine/model/constructor listeners/late listeners, the same name on 1-3 providers (guard conjunction), listeners attached at random points and re-attached, async listener methods, and a second instance of the class driven alongside to check that one instance's listeners are never invoked by another. Known findings D12 (late async listener on a sync machine) and D13 (guard re-evaluated per re-attachment) are probed and reported; multi-provider `unless` names and coroutine guards inside a provider conjunction are not generated (see DESIGN).",
+    design="7 C12"),
+})
 NOT_APPLICABLE = {}
 
 def main():
